@@ -38,6 +38,7 @@ Section Ask.
   Variable lg : Q -> Q.
   Variable pw : Q -> Q -> Q.
   Variable sp : space.
+  Variable actf : list Q -> list bool.
   Hypothesis WF : wf_space sp = true.
 
   Record Inv (st : ostate) : Prop := {
@@ -50,17 +51,18 @@ Section Ask.
      true for transformed candidates) *)
   Definition ev_ok (e : event) : Prop :=
     match e with
-    | Tell _ _ cands z _ => Forall (mem sp) cands /\ ident_ok sp z = true
-    | Ask _ _ orc => Forall (mem sp) (r_rvs orc) /\ Forall (fun f => ident_ok sp (fst f) = true) (r_fits orc)
+    | Tell _ _ cands z => Forall (mem sp) cands /\ ident_ok sp z = true
+    | Ask _ _ orc => Forall (mem sp) (r_rvs orc) /\ Forall (fun z => ident_ok sp z = true) (r_fits orc)
     end.
 
-  Lemma fit_point_member z act : ident_ok sp z = true -> mem sp (fit_point R lg pw sp z act).
-  Proof.
-    intros I. unfold mem, fit_point. apply canon_row_member; [exact WF|]. apply ask_decode_member; assumption.
-  Qed.
+  Lemma deactivate_member x : mem sp x -> mem sp (deactivate sp actf x).
+  Proof. intros M. unfold mem, deactivate. apply canon_row_member; [exact WF| exact M]. Qed.
 
-  Lemma tell_state_inv st k fit cands z act :
-    Inv st -> Forall (mem sp) cands -> ident_ok sp z = true -> Inv (tell_state R lg pw sp st k fit cands z act).
+  Lemma fit_point_member z : ident_ok sp z = true -> mem sp (fit_point R lg pw sp actf z).
+  Proof. intros I. unfold fit_point. apply deactivate_member. apply ask_decode_member; assumption. Qed.
+
+  Lemma tell_state_inv st k fit cands z :
+    Inv st -> Forall (mem sp) cands -> ident_ok sp z = true -> Inv (tell_state R lg pw sp actf st k fit cands z).
   Proof.
     intros [I1 I2 I3] HC HZ. unfold tell_state.
     destruct (fit && (o_ninit st - k <=? 0)%Z && negb (o_dummy st)).
@@ -71,11 +73,12 @@ Section Ask.
     - constructor; cbn [o_init o_next o_last]; assumption.
   Qed.
 
-  Lemma ask_points_inv st n s orc :
+  (* membership holds for the repaired branch and for the F03-only branch alike *)
+  Lemma ask_points_inv v st n s orc : v <> Pinned ->
     Inv st -> ev_ok (Ask n s orc) ->
-    Forall (mem sp) (fst (ask_points R lg pw Fixed sp st n s orc)) /\ Inv (snd (ask_points R lg pw Fixed sp st n s orc)).
+    Forall (mem sp) (fst (ask_points R lg pw v sp actf st n s orc)) /\ Inv (snd (ask_points R lg pw v sp actf st n s orc)).
   Proof.
-    intros [I1 I2 I3] [HR HF]. unfold ask_points.
+    intros NP [I1 I2 I3] [HR HF]. unfold ask_points.
     destruct (branch_of st n s); cbn [fst snd].
     - (* BSingleInit *)
       destruct (o_init st) as [|x rest] eqn:E; cbn [fst snd].
@@ -91,13 +94,15 @@ Section Ask.
       + apply Forall_app. split; apply Forall_firstn_; assumption.
       + constructor; cbn [o_init o_next o_last]; [apply Forall_skipn_, I1| exact I2| exact I3].
     - split; [constructor| constructor; assumption].
-    - (* BOneShot, repaired *)
+    - (* BOneShot *)
       split; [|constructor; assumption].
       destruct (o_last st) as [L|] eqn:E; [|constructor].
       destruct (I3 L eq_refl) as [cands [HC ->]].
       apply Forall_forall. intros y Hy. apply in_map_iff in Hy as [zt [<- Hz]].
       apply pick_In in Hz. apply in_map_iff in Hz as [x [<- Hx]].
-      cbn [oneshot_point]. rewrite Forall_forall in HC. apply row_member; [exact WF| apply HC, Hx].
+      rewrite Forall_forall in HC.
+      assert (M : mem sp (inverse_row R lg pw sp (transform_row R lg sp x))) by (apply row_member; [exact WF| apply HC, Hx]).
+      destruct v; cbn [oneshot_point]; [contradiction| exact M| apply deactivate_member, M].
     - (* BQ *)
       split; [|constructor; assumption].
       apply Forall_app. split.
@@ -105,34 +110,34 @@ Section Ask.
       + apply Forall_pick, HR.
     - (* BCL *)
       split; [|constructor; assumption].
-      apply Forall_forall. intros y Hy. apply in_map_iff in Hy as [f [<- Hf]].
-      rewrite Forall_forall in HF. apply fit_point_member, HF, Hf.
+      apply Forall_forall. intros y Hy. apply in_map_iff in Hy as [z [<- Hz]].
+      rewrite Forall_forall in HF. apply fit_point_member, HF, Hz.
   Qed.
 
-  Lemma step_inv st e :
+  Lemma step_inv v st e : v <> Pinned ->
     Inv st -> ev_ok e ->
-    Forall (mem sp) (fst (step R lg pw Fixed sp st e)) /\ Inv (snd (step R lg pw Fixed sp st e)).
+    Forall (mem sp) (fst (step R lg pw v sp actf st e)) /\ Inv (snd (step R lg pw v sp actf st e)).
   Proof.
-    intros I H. destruct e as [k fit cands z act|n s orc]; cbn [step].
+    intros NP I H. destruct e as [k fit cands z|n s orc]; cbn [step].
     - destruct H as [HC HZ]. cbn [fst snd]. split; [constructor| apply tell_state_inv; assumption].
     - apply ask_points_inv; assumption.
   Qed.
 
-  Theorem asked_members : forall evs st,
-    Inv st -> Forall ev_ok evs -> Forall (mem sp) (asked R lg pw Fixed sp st evs).
+  Theorem asked_members v : v <> Pinned -> forall evs st,
+    Inv st -> Forall ev_ok evs -> Forall (mem sp) (asked R lg pw v sp actf st evs).
   Proof.
-    induction evs as [|e evs IH]; intros st I H; cbn [asked]; [constructor|].
+    intros NP. induction evs as [|e evs IH]; intros st I H; cbn [asked]; [constructor|].
     inversion H as [|? ? He Hes]; subst.
-    destruct (step_inv st e I He) as [A B].
-    destruct (step R lg pw Fixed sp st e) as [rows st'] eqn:E. cbn [fst snd] in A, B.
+    destruct (step_inv v st e NP I He) as [A B].
+    destruct (step R lg pw v sp actf st e) as [rows st'] eqn:E. cbn [fst snd] in A, B.
     apply Forall_app. split; [exact A| apply IH; assumption].
   Qed.
 
   (* ... and tell accepts every one of them back *)
-  Corollary asked_accepted evs st :
-    Inv st -> Forall ev_ok evs -> Forall (fun r => check_x sp r = TOk) (asked R lg pw Fixed sp st evs).
+  Corollary asked_accepted v evs st : v <> Pinned ->
+    Inv st -> Forall ev_ok evs -> Forall (fun r => check_x sp r = TOk) (asked R lg pw v sp actf st evs).
   Proof.
-    intros I H. pose proof (asked_members evs st I H) as M. rewrite Forall_forall in *. intros r Hr. apply tell_accepts, M, Hr.
+    intros NP I H. pose proof (asked_members v NP evs st I H) as M. rewrite Forall_forall in *. intros r Hr. apply tell_accepts, M, Hr.
   Qed.
 
   (* the state Optimizer.__init__ builds: caller's points (members) + the decoded initial design *)
@@ -145,21 +150,96 @@ Section Ask.
     - intros x E. discriminate.
     - intros L E. discriminate.
   Qed.
+
+  (* ---------- canonical inactive values along every history (repaired one-shot branches) ---------- *)
+  (* a point is canonical when deactivate_inactive_dimensions leaves it alone *)
+  Definition canonical (x : list Q) : Prop := deactivate sp actf x = x.
+
+  (* ConfigSpace: the values of inactive hyperparameters play no role for the activity of any hyperparameter
+     (checked on every run by the canon stream, clause activity_changed_by_canonicalisation) *)
+  Hypothesis act_stable : forall x, actf (deactivate sp actf x) = actf x.
+
+  Lemma deactivate_canonical x : canonical (deactivate sp actf x).
+  Proof. unfold canonical. unfold deactivate at 1. rewrite act_stable. unfold deactivate. apply canon_row_idempotent. Qed.
+
+  Record InvC (st : ostate) : Prop := {
+    invc_init : Forall canonical (o_init st);
+    invc_next : forall x, o_next st = Some x -> canonical x }.
+
+  (* the samples of Space.rvs come canonical from the ConfigSpace path (re-checked on every run: canon stream, clause rvs_not_canonical) *)
+  Definition ev_canon (e : event) : Prop :=
+    match e with Tell _ _ _ _ => True | Ask _ _ orc => Forall canonical (r_rvs orc) end.
+
+  Lemma tell_state_invc st k fit cands z : InvC st -> InvC (tell_state R lg pw sp actf st k fit cands z).
+  Proof.
+    intros [I1 I2]. unfold tell_state. destruct (fit && (o_ninit st - k <=? 0)%Z && negb (o_dummy st)).
+    - constructor; cbn [o_init o_next]; [exact I1|]. intros x E. injection E as <-. apply deactivate_canonical.
+    - constructor; cbn [o_init o_next]; assumption.
+  Qed.
+
+  Lemma ask_points_invc st n s orc :
+    InvC st -> ev_canon (Ask n s orc) ->
+    Forall canonical (fst (ask_points R lg pw Fixed sp actf st n s orc)) /\ InvC (snd (ask_points R lg pw Fixed sp actf st n s orc)).
+  Proof.
+    intros [I1 I2] HR. cbn [ev_canon] in HR. unfold ask_points.
+    destruct (branch_of st n s); cbn [fst snd].
+    - destruct (o_init st) as [|x rest] eqn:E; cbn [fst snd].
+      + split; [constructor| constructor; [rewrite E; constructor| exact I2]].
+      + inversion I1 as [|? ? Hx Hr]; subst.
+        split; [constructor; [exact Hx| constructor]|]. constructor; cbn [o_init o_next]; assumption.
+    - split; [apply Forall_firstn_, HR| constructor; assumption].
+    - split; [|constructor; assumption].
+      destruct (o_next st) as [x|] eqn:E; [|constructor]. constructor; [apply I2; reflexivity| constructor].
+    - split; [constructor| constructor; assumption].
+    - split.
+      + apply Forall_app. split; apply Forall_firstn_; assumption.
+      + constructor; cbn [o_init o_next]; [apply Forall_skipn_, I1| exact I2].
+    - split; [constructor| constructor; assumption].
+    - split; [|constructor; assumption].
+      destruct (o_last st) as [L|]; [|constructor].
+      apply Forall_forall. intros y Hy. apply in_map_iff in Hy as [zt [<- _]]. cbn [oneshot_point]. apply deactivate_canonical.
+    - split; [|constructor; assumption].
+      apply Forall_app. split.
+      + destruct (o_next st) as [x|] eqn:E; [|constructor]. constructor; [apply I2; reflexivity| constructor].
+      + apply Forall_pick, HR.
+    - split; [|constructor; assumption].
+      apply Forall_forall. intros y Hy. apply in_map_iff in Hy as [z [<- _]]. unfold fit_point. apply deactivate_canonical.
+  Qed.
+
+  Theorem asked_canonical : forall evs st,
+    InvC st -> Forall ev_canon evs -> Forall canonical (asked R lg pw Fixed sp actf st evs).
+  Proof.
+    induction evs as [|e evs IH]; intros st I H; cbn [asked]; [constructor|].
+    inversion H as [|? ? He Hes]; subst.
+    assert (AB : Forall canonical (fst (step R lg pw Fixed sp actf st e)) /\ InvC (snd (step R lg pw Fixed sp actf st e))).
+    { destruct e as [k fit cands z|n s orc]; cbn [step fst snd].
+      - split; [constructor| apply tell_state_invc, I].
+      - apply ask_points_invc; assumption. }
+    destruct AB as [A B]. destruct (step R lg pw Fixed sp actf st e) as [rows st'] eqn:E. cbn [fst snd] in A, B.
+    apply Forall_app. split; [exact A| apply IH; assumption].
+  Qed.
+
+  (* the initial state is canonical when the caller's points are and there is no quasi-random design (the property quantifies
+     constrained spaces with the random design only: the designs fill the box and ignore conditions) *)
+  Lemma init_state_invc n_initial dummy user : Forall canonical user -> InvC (init_state R lg pw sp n_initial dummy user []).
+  Proof.
+    intros HU. unfold init_state. constructor; cbn [o_init o_next map]; [rewrite app_nil_r; exact HU| discriminate].
+  Qed.
 End Ask.
 
 (* the automaton state and the checker's next-state functions agree (what the step-wise correspondence compares) *)
 Require Import DH.C02_Membership.Check.
 
-Lemma ask_post_spec R lg pw v sp st n s orc :
-  ask_post st n s = obs_of (snd (ask_points R lg pw v sp st n s orc)).
+Lemma ask_post_spec R lg pw v sp actf st n s orc :
+  ask_post st n s = obs_of (snd (ask_points R lg pw v sp actf st n s orc)).
 Proof.
   unfold ask_post, ask_points, obs_of. destruct (branch_of st n s) eqn:B; cbn [snd]; try reflexivity.
   - destruct (o_init st) as [|x rest] eqn:E; cbn [snd o_ninit o_init o_models o_last length pred]; [rewrite E|]; reflexivity.
   - cbn [o_ninit o_init o_models o_last]. rewrite skipn_length. reflexivity.
 Qed.
 
-Lemma tell_post_spec R lg pw sp st k fit cands z act :
-  tell_post st k fit = obs_of (tell_state R lg pw sp st k fit cands z act).
+Lemma tell_post_spec R lg pw sp actf st k fit cands z :
+  tell_post st k fit = obs_of (tell_state R lg pw sp actf st k fit cands z).
 Proof.
   unfold tell_post, tell_state, obs_of. destruct (fit && (o_ninit st - k <=? 0)%Z && negb (o_dummy st)); reflexivity.
 Qed.
@@ -168,22 +248,51 @@ Qed.
 Definition Rid (x : Q) : Q := x.
 Definition lg0 (x : Q) : Q := 0.
 Definition pw0 (b x : Q) : Q := 0.
+Definition act_all (x : list Q) : list bool := map (fun _ => true) x.
 
 Definition wit_sp : space := [DReal 10 20 PUniform TNormalize].
 Definition wit_st : ostate := mkO 1 [] false O None None.
 Definition wit_evs : list event :=
-  [ Tell 1 true [[15]; [12]] [1 # 2] [true];                (* one result told, model fitted, argmin = 0.5 *)
+  [ Tell 1 true [[15]; [12]] [1 # 2];                       (* one result told, model fitted, argmin = 0.5 *)
     Ask (Some 2%nat) StTopk (mkOr [] [0%nat; 1%nat] []) ].  (* ask(2, "topk") *)
 
 Lemma topk_pinned_refuted :
   wf_space wit_sp = true /\ Inv Rid lg0 wit_sp wit_st /\ Forall (ev_ok wit_sp) wit_evs /\
-  length (asked Rid lg0 pw0 Pinned wit_sp wit_st wit_evs) = 2%nat /\
-  Forall (fun r => in_space wit_sp r = false /\ check_x wit_sp r = TErrBounds) (asked Rid lg0 pw0 Pinned wit_sp wit_st wit_evs) /\
-  Forall (fun r => in_space wit_sp r = true) (asked Rid lg0 pw0 Fixed wit_sp wit_st wit_evs).
+  length (asked Rid lg0 pw0 Pinned wit_sp act_all wit_st wit_evs) = 2%nat /\
+  Forall (fun r => in_space wit_sp r = false /\ check_x wit_sp r = TErrBounds) (asked Rid lg0 pw0 Pinned wit_sp act_all wit_st wit_evs) /\
+  Forall (fun r => in_space wit_sp r = true) (asked Rid lg0 pw0 Fixed wit_sp act_all wit_st wit_evs).
 Proof.
   split; [reflexivity|]. split.
   - constructor; cbn; [constructor| discriminate| discriminate].
   - split; [repeat constructor|]. split; [vm_compute; reflexivity|]. split.
     + vm_compute. repeat constructor.
+    + vm_compute. repeat constructor.
+Qed.
+
+(* ---------- the one-shot branches with fixes/F03 alone: members, but inactive values drift ---------- *)
+(* space: a parent category {0, 1} and a child Real(2/1000, 9/10) that is active iff the parent is 0; a rounding that errs
+   upwards by a relative 2^-53 (admissible: what 10 ** log10(0.002) does in binary64) moves the child's canonical value
+   2/1000 off the lower bound on the round trip; without deactivate_inactive_dimensions the point handed out is a member
+   of the space but not canonical *)
+Definition R_up53 (x : Q) : Q := x * (1 + (1 # 9007199254740992)).
+Definition drift_sp : space := [DCat KTok [0; 1] CLabel; DReal (2 # 1000) (9 # 10) PUniform TNormalize].
+Definition drift_act (x : list Q) : list bool := [true; Qeq_bool (hd 0 x) 0].
+Definition drift_st : ostate := mkO 1 [] false O None None.
+Definition drift_evs : list event :=
+  [ Tell 1 true [[1; 2 # 1000]] [1; 0];                     (* the only candidate: parent = 1, child inactive at its canonical value *)
+    Ask (Some 2%nat) StTopk (mkOr [] [0%nat] []) ].
+
+Lemma oneshot_decoded_refuted :
+  wf_space drift_sp = true /\ Forall (ev_ok drift_sp) drift_evs /\
+  (forall x, drift_act (deactivate drift_sp drift_act x) = drift_act x) /\
+  Forall (canonical drift_sp drift_act) [[1; 2 # 1000]] /\
+  Forall (fun r => in_space drift_sp r = true) (asked R_up53 lg0 pw0 Decoded drift_sp drift_act drift_st drift_evs) /\
+  Exists (fun r => deactivate drift_sp drift_act r <> r) (asked R_up53 lg0 pw0 Decoded drift_sp drift_act drift_st drift_evs) /\
+  Forall (canonical drift_sp drift_act) (asked R_up53 lg0 pw0 Fixed drift_sp drift_act drift_st drift_evs).
+Proof.
+  split; [reflexivity|]. split; [repeat constructor|]. split.
+  - intros x. unfold drift_act, deactivate, drift_sp. destruct x as [|a [|b x]]; reflexivity.
+  - split; [repeat constructor|]. split; [vm_compute; repeat constructor|]. split.
+    + apply Exists_cons_hd. vm_compute. intros E. discriminate E.
     + vm_compute. repeat constructor.
 Qed.
